@@ -241,6 +241,15 @@ class MerchantEngine:
                             line_num, line
                         )
                     field_name, expr = field_match.groups()
+                    # Validate here: a later field of the same name replaces this
+                    # one, so _add_rule never sees the replaced expression
+                    try:
+                        expr_parser.parse_expression(expr)
+                    except expr_parser.ExpressionError as e:
+                        raise MerchantParseError(
+                            f"Invalid field expression '{field_name}' in '{current_rule['name']}': {e}",
+                            line_num, line
+                        )
                     if 'fields' not in current_rule:
                         current_rule['fields'] = {}
                     current_rule['fields'][field_name.lower()] = expr
